@@ -14,16 +14,16 @@ pub fn prop() -> Prop {
     Prop {
         id: "C01",
         level: "exploration",
-        rule: "case = GenAir instance (width 1..12, occasionally 64..255; trace length 2^3..2^10; one next-state constraint per column of degree 1..5 with optional periodic factor; exemptions 1..bound with mass on k = degree and k = bound; optional auxiliary segment with running product / sum columns; single / periodic / sequence assertions read off the generated satisfying trace, in a generated listing order) x one of 12 (field, hasher) instances x generated valid ProofOptions (queries 1..255, blowup min..128, grinding 0..10, extension None/Quadratic/Cubic, folding 2/4/8/16, remainder degree 2^r-1 <= 255 without FRI degree truncation, 3x3 batching methods, partitions 1..16 x hash rate). Oracle: verify(Proof::from_bytes(proof.to_bytes())) = Ok with OptionSet([options]). Non-trivial = the independent checker confirms the trace satisfies the spec and a proof was produced; distinct = hash of (spec, options, instance).",
+        rule: "case = GenAir instance (width 1..12, occasionally 64..255; trace length 2^3..2^10; one next-state constraint per column of degree 1..5 with optional periodic factor; exemptions 1..bound with mass on k = degree and k = bound; optional auxiliary segment with running product / sum columns; single / periodic / sequence assertions read off the generated satisfying trace, in a generated listing order; sub-check long_sequences forces a sequence assertion of 64..512 values on traces of 2^7..2^12 rows with its first step spread over the whole stride, so that first_step x constraint-evaluation blowup exceeds the number of values) x one of 12 (field, hasher) instances x generated valid ProofOptions (queries 1..255, blowup min..128, grinding 0..10, extension None/Quadratic/Cubic, folding 2/4/8/16, remainder degree 2^r-1 <= 255 without FRI degree truncation, 3x3 batching methods, partitions 1..16 x hash rate). Oracle: verify(Proof::from_bytes(proof.to_bytes())) = Ok with OptionSet([options]). Non-trivial = the independent checker confirms the trace satisfies the spec and a proof was produced; distinct = hash of (spec, options, instance).",
         assumptions: vec![
             "only configurations the code documents as acceptable are generated: blowup >= the documented minimum for the declared degrees, queries < LDE size, FRI parameters without degree truncation (counted as excluded)",
             "a prover panic on a generated instance is recorded as prover_declined (C01 speaks about the proof the prover produces); more than 5% of such cases makes the check inconclusive (exit 2)",
             "release profile: Trace::validate is not run by the prover (its agreement with the independent checker is C29's subject)",
         ],
-        subs: vec![Sub::gen("genair", genair, 400, 6_000, 150_000), Sub::gen("many_queries", many_queries, 400, 32, 600)],
+        subs: vec![Sub::gen("genair", genair, 400, 6_000, 150_000), Sub::gen("many_queries", many_queries, 400, 32, 600), Sub::gen("long_sequences", long_sequences, 400, 600, 12_000)],
         required: vec![
             "field:f62", "field:f64", "field:f128", "ext:1", "ext:2", "ext:3", "folding:2", "folding:4", "folding:8", "folding:16", "remainder:0", "remainder:255",
-            "unique_queries_255", "queries_1", "partitions_gt_1", "aux_segment", "periodic_column", "sequence_ge_64", "sequence_first_nonzero",
+            "unique_queries_255", "queries_1", "partitions_gt_1", "aux_segment", "periodic_column", "sequence_ge_64", "sequence_first_nonzero", "sequence_offset_ge_values",
             "composition_columns_gt_1", "exemptions_gt_1", "exemptions_eq_degree", "hasher:Rp62_248", "hasher:Rp64_256", "hasher:RpJive64_256", "hasher:Sha3_256<f128>", "hasher:Blake3_192<f62>", "max5%:prover_declined",
         ],
         required_thorough: vec!["wide_trace"],
@@ -32,22 +32,28 @@ pub fn prop() -> Prop {
 
 fn genair(s: &mut Src, rec: &mut Rec) -> CaseResult {
     let idx = s.below(NUM_HASHERS);
-    with_hasher!(idx, X, run::<X>(s, rec, false))
+    with_hasher!(idx, X, run::<X>(s, rec, 0))
 }
 fn many_queries(s: &mut Src, rec: &mut Rec) -> CaseResult {
     let idx = s.pick_copy(&[0u64, 1, 2, 4, 8]);
-    with_hasher!(idx, X, run::<X>(s, rec, true))
+    with_hasher!(idx, X, run::<X>(s, rec, 1))
+}
+fn long_sequences(s: &mut Src, rec: &mut Rec) -> CaseResult {
+    // non-Rescue instances (cost): three fields x Blake3 / Sha3
+    let idx = s.pick_copy(&[0u64, 1, 2, 3, 4, 5, 6, 7, 8]);
+    with_hasher!(idx, X, run::<X>(s, rec, 2))
 }
 
 pub fn unique_queries(p: &Proof) -> usize {
     p.num_unique_queries as usize
 }
 
-fn run<X: HS>(s: &mut Src, rec: &mut Rec, forced_255: bool) -> CaseResult
+fn run<X: HS>(s: &mut Src, rec: &mut Rec, mode: u8) -> CaseResult
 where
     X::H: Send + Sync,
 {
     let thorough = std::env::var("VERIF_TIER").map(|t| t == "thorough").unwrap_or(false);
+    let forced_255 = mode == 1;
     let mut cfg = GenCfg::small();
     cfg.wide = thorough;
     cfg.max_log_n = if X::is_rescue() { 7 } else if thorough { 11 } else { 9 };
@@ -59,6 +65,16 @@ where
         cfg.max_width = 3;
         cfg.allow_aux = false;
         max_lde = 1 << 17;
+    }
+    if mode == 2 {
+        // sequence assertions of 64..512 values with the first step anywhere in the stride
+        cfg.min_log_n = if X::is_rescue() { 8 } else { 10 };
+        cfg.max_log_n = if X::is_rescue() { 9 } else { 12 };
+        cfg.max_width = 3;
+        cfg.allow_aux = s.chance(1, 4);
+        cfg.max_assertions = 3;
+        cfg.long_sequence = true;
+        max_lde = 1 << 15;
     }
     let mut case = gen_case::<X>(s, &cfg, max_lde, rec);
     if forced_255 {
